@@ -21,7 +21,7 @@ func supplement(r *engine.Run, iterations int, limit time.Duration) map[string]i
 	out := map[string]interface{}{"iterations_per_scenario": iterations, "ran": false}
 	ctx, cancel := context.WithTimeout(context.Background(), limit)
 	defer cancel()
-	cmd := exec.CommandContext(ctx, "go", "test", "-race", "-count=1", "-timeout", "600s", "./checks/sched/supplement", "-args", "-n", fmt.Sprint(iterations))
+	cmd := exec.CommandContext(ctx, "go", "test", "-race", "-v", "-count=1", "-timeout", "600s", "./checks/sched/supplement", "-args", "-n", fmt.Sprint(iterations))
 	cmd.Dir = engine.Root
 	cmd.Env = append(os.Environ(), "GOFLAGS=-mod=mod", "GOPROXY=off", "GOSUMDB=off", "GOTOOLCHAIN=local", "GOCACHE="+engine.Root+"/.cache", "GOMAXPROCS=8", "GORACE=halt_on_error=0")
 	var buf bytes.Buffer
@@ -33,8 +33,8 @@ func supplement(r *engine.Run, iterations int, limit time.Duration) map[string]i
 	if ctx.Err() != nil {
 		out["note"] = "time limit hit"
 	}
-	if !strings.Contains(text, "verif/checks/sched/supplement") {
-		out["note"] = "go test -race did not run: " + tail(text, 300)
+	if !strings.Contains(text, "=== RUN") {
+		out["note"] = fmt.Sprint(out["note"], " go test -race did not run: ", tail(text, 300))
 		return out
 	}
 	_ = err
@@ -75,7 +75,7 @@ func supplement(r *engine.Run, iterations int, limit time.Duration) map[string]i
 			Case: map[string]interface{}{"supplement": "go test -race ./checks/sched/supplement", "functions": k, "reports": races[k]}})
 	}
 	if noReturn > 0 {
-		r.Fail(engine.Failure{Sig: "supplement:no-return:Shutdown", Detail: fmt.Sprintf("free-running run on the un-rewritten code: Shutdown()/Run() did not return within 5 s in %d iterations", noReturn),
+		r.Fail(engine.Failure{Sig: "supplement:no-return:Shutdown", Detail: fmt.Sprintf("free-running run on the un-rewritten code: Shutdown()/Run() did not return within 2 s in %d iterations", noReturn),
 			Case: map[string]interface{}{"supplement": "go test -race ./checks/sched/supplement", "iterations_without_return": noReturn}})
 	}
 	out["race_reports_by_function_pair"] = rs
